@@ -53,8 +53,8 @@ func NumBits(tag string, lit []byte) (uint64, error) {
 	return 0, fmt.Errorf("not a number tag %q", tag)
 }
 
-// Compare checks tape words (tags, pointers, flags, lengths, number words)
-// and the string buffer exactly.
+// Compare checks tape words (tags, pointers, float flags, lengths, number words)
+// exactly and strings by content.
 func Compare(pj *simdjson.ParsedJson, spec []SpecWord, sb []byte) error {
 	if len(pj.Tape) != len(spec) {
 		return fmt.Errorf("tape has %d words, spec %d: %s", len(pj.Tape), len(spec), Dump(pj))
@@ -69,25 +69,38 @@ func Compare(pj *simdjson.ParsedJson, spec []SpecWord, sb []byte) error {
 		}
 		switch s.Tag {
 		case "\"", "\"m":
+			// Demanded: a string word, the length word, an offset/length inside the region the flag selects, and (where the
+			// spec carries the content) the right bytes there.  WHERE in the string buffer a string lives, and whether an
+			// escape-free string is copied in no-copy mode, is not part of any property: offsets are compared by content.
 			if tag != '"' {
 				return bad("tag")
 			}
-			inbuf := pay&simdjson.STRINGBUFBIT != 0
-			if inbuf != (s.Tag == "\"") {
-				return bad("string buffer flag")
-			}
-			if inbuf && int64(pay&simdjson.STRINGBUFMASK) != s.P {
-				return bad("string buffer offset")
-			}
 			if i+1 >= len(spec) || pj.Tape[i+1] != uint64(spec[i+1].P) {
 				return bad("string length word")
+			}
+			inbuf := pay&simdjson.STRINGBUFBIT != 0
+			off, ln := pay&simdjson.STRINGBUFMASK, pj.Tape[i+1]
+			region := pj.Message
+			if inbuf {
+				region = pj.Strings.B
+			}
+			if off > uint64(len(region)) || ln > uint64(len(region))-off {
+				return bad("string offset/length outside its region")
+			}
+			if s.Tag == "\"" && sb != nil {
+				if uint64(s.P)+ln > uint64(len(sb)) {
+					return fmt.Errorf("spec tape malformed at %d (string outside the spec buffer)", i)
+				}
+				if !bytes.Equal(region[off:off+ln], sb[uint64(s.P):uint64(s.P)+ln]) {
+					return fmt.Errorf("tape[%d]: string content %q, spec %q: %s", i, region[off:off+ln], sb[uint64(s.P):uint64(s.P)+ln], Dump(pj))
+				}
 			}
 			i++
 		case "l", "u", "d":
 			if tag != s.Tag[0] {
 				return bad("tag")
 			}
-			if int64(pay) != s.P {
+			if s.Tag == "d" && int64(pay) != s.P { // float flags are API-visible; the payload bits of an integer tag are not
 				return bad("flags")
 			}
 			if i+1 >= len(spec) || !spec[i+1].IsL {
@@ -109,9 +122,6 @@ func Compare(pj *simdjson.ParsedJson, spec []SpecWord, sb []byte) error {
 				return bad("payload")
 			}
 		}
-	}
-	if sb != nil && !bytes.Equal(pj.Strings.B, sb) {
-		return fmt.Errorf("string buffer %q, spec %q", pj.Strings.B, sb)
 	}
 	return nil
 }
